@@ -18,6 +18,7 @@ import (
 	"strconv"
 	"strings"
 	"sync"
+	"sync/atomic"
 	"time"
 
 	"rgverif/internal/common"
@@ -49,11 +50,15 @@ func report(w witness) {
 	mu.Unlock()
 }
 
+// confLayout rotates the configuration-file layouts over the servers a run starts.
+var confLayout atomic.Int32
+
 func startServer(o *common.Opts, dbs int, race bool, tag string) (*procs.Server, error) {
+	layout := int(confLayout.Add(1)-1) % 4
 	var err error
 	var srv *procs.Server
 	for try := 0; try < 5; try++ {
-		srv, err = procs.Start(procs.Opts{Dir: filepath.Join(o.Work, fmt.Sprintf("c20-%s-%d", tag, try)), Port: procs.FreePorts(1)[0], ShardNum: 8, Databases: dbs, Race: race})
+		srv, err = procs.Start(procs.Opts{Dir: filepath.Join(o.Work, fmt.Sprintf("c20-%s-%d", tag, try)), Port: procs.FreePorts(1)[0], ShardNum: 8, Databases: dbs, Race: race, ConfLayout: layout})
 		if err == nil {
 			return srv, nil
 		}
@@ -297,7 +302,7 @@ func main() {
 	}
 	note := ""
 	probes := 0
-	for _, dbs := range []int{1, 2, 16} {
+	for _, dbs := range []int{1, 2, 16, 3, 5, 20, 33} {
 		p, n := sweep(o, dbs)
 		probes += p
 		if n != "" {
@@ -378,7 +383,7 @@ func main() {
 		Coverage: map[string]any{
 			"evaluations":         probes + histories,
 			"distinct_nontrivial": probes + hops,
-			"rule": "SELECT argument sweep (18 spellings x 3 rounds x databases in {1,2,16}), each followed by a probe write located from a fresh connection; concurrent histories of 2-8 connections x 300+ operations hopping between databases " +
+			"rule": "SELECT argument sweep (18 spellings x 3 rounds x database counts {1,2,3,5,16,20,33}, configuration file laid out four ways: LF with final newline, no final newline, CRLF with blank lines and no final newline as in the shipped file, directive first in upper case), each followed by a probe write located from a fresh connection; concurrent histories of 2-8 connections x 300+ operations hopping between databases " +
 				"and writing tagged values (connection, database, sequence) to the same key name; non-trivial = sweep probes + database hops performed inside concurrent histories",
 			"samples":               []any{"SELECT \"01\" then SET probe -> located in exactly one database", "c3 SELECT 5; c3 SET k c3:d5:s17; c1 SELECT 2; c3 GET k -> must carry d5"},
 			"select_probes":         probes,
